@@ -6,6 +6,12 @@ use crate::rng::Rng;
 use crate::scen::*;
 
 pub fn gen_script(rng: &mut Rng, n_ops: usize, with_faults: bool, with_timeouts: bool) -> Vec<Step> {
+    gen_script_ex(rng, n_ops, with_faults, with_timeouts, false, false)
+}
+
+/// `drain`: at the end answer every unanswered operation and finish every stream, so that the
+/// connection is quiescent; `stalls`: the peer sometimes stops draining its socket
+pub fn gen_script_ex(rng: &mut Rng, n_ops: usize, with_faults: bool, with_timeouts: bool, drain: bool, stalls: bool) -> Vec<Step> {
     let mut steps = vec![];
     let mut next_id: i64 = 1; // the IDs a fresh connection hands out: 1, 2, 3, …
     let mut live_single: Vec<i64> = vec![];
@@ -92,11 +98,24 @@ pub fn gen_script(rng: &mut Rng, n_ops: usize, with_faults: bool, with_timeouts:
                 _ => steps.push(Step::Reset),
             }
             steps.push(Step::Settle);
+        } else if stalls && choice < 99 {
+            steps.push(Step::StallWrites(rng.chance(1, 2)));
         } else {
             steps.push(Step::Settle);
         }
     }
+    steps.push(Step::StallWrites(false));
     steps.push(Step::Settle);
+    if drain {
+        for id in live_single.drain(..) {
+            steps.push(Step::Send { id, op: 11, good: true });
+        }
+        steps.push(Step::Settle);
+        if with_timeouts {
+            steps.push(Step::Tick(2000));
+            steps.push(Step::Settle);
+        }
+    }
     // read whatever is left on the open streams, then finish them
     for (oi, _) in live_search {
         steps.push(Step::Finish(oi));
